@@ -14,3 +14,4 @@ open Rtsp.Peer.C19
 #print axioms other_conn_rejected_unchanged
 #print axioms linked_only_to_own_address
 #print axioms driven_only_from_author_address
+#print axioms client_foreign_zone
